@@ -441,7 +441,8 @@ func runC02(c *Ctx) {
 					case "GreaterThanOrEqualTo":
 						want = cmp >= 0
 					}
-					if refEq(a, b) == eqMurky && (on == "LessThanOrEqualTo" || on == "GreaterThanOrEqualTo") {
+					if refEq(a, b) == eqMurky {
+						// the operands differ by less than their precision: either answer is within it
 						u.Class("unspecified")
 						continue
 					}
